@@ -45,10 +45,10 @@ def oracle_dobj(run):
 
     The critical sections of promiseLock are totally ordered (checked: mutual exclusion); their order is the
     order of the `mlk` lines.  From that order alone:
-      (value rule)  for the future handed out by a getFuture(k): the FIRST later critical section that is
-                    getFuture(k) again (-> broken_promise: the code abandons the pending promise; only when the key
-                    is requested twice), setDelayedValue(k, v) (-> v), fulfillAllPromises(v) (-> v) or the
-                    destructor (-> 0) decides what the future yields;
+      (value rule)  for the future handed out by a getFuture(k) whose key is requested once (not pending at the
+                    request, not requested again before it is satisfied): the FIRST later critical section that is
+                    setDelayedValue(k, v) (-> v), fulfillAllPromises(v) (-> v) or the destructor (-> 0) decides
+                    what the future yields; futures of keys requested twice only have to become ready, once;
       (exactly once) every future is read exactly once by the harness (`got`), after the deciding critical
                     section began, and yields exactly that; `got .. hang` / `error` never appears;
       (no escape)   no `exc` line (promise_already_satisfied or anything else escaping the API);
@@ -111,12 +111,13 @@ def oracle_dobj(run):
             gots.setdefault(int(t[1]), []).append((i, t[2]))
     # reference dict model in critical-section order
     pending, used, handed = {}, {}, {}
+    later = []       # bookkeeping discrepancies, reported only if the futures themselves look right
     for si, (line, tid, kind, key, arg) in enumerate(sections):
         want_sets = []
         res = "-"
         if kind == "get":
+            handed[arg] = (si, key, key in pending)   # third field: a re-request of a key that is still pending
             pending[key] = arg
-            handed[arg] = (si, key)
         elif kind == "set":
             if key in pending:
                 used[key] = pending.pop(key)
@@ -135,17 +136,21 @@ def oracle_dobj(run):
             res = "1" if key in used else "0"
         elif kind == "fin":
             used.pop(key, None)
-        if sorted(psets.get(si, [])) != sorted(want_sets):
-            return "%s %s by thread %d performed set_value %s, expected %s" % (kind, key, tid, psets.get(si, []), want_sets)
+        keytxt = "" if key is None else " " + key[0] + ":" + key[1]
         if si in results and results[si] != res:
-            return "%s %s by thread %d returned %s, reference model says %s" % (kind, key, tid, results[si], res)
+            return "%s%s by thread %d returned %s, reference model says %s" % (kind, keytxt, tid, results[si], res)
+        if sorted(psets.get(si, [])) != sorted(want_sets):
+            later.append("%s%s by thread %d performed set_value %s, expected %s" % (kind, keytxt, tid, psets.get(si, []), want_sets))
     # value rule, literally
     complete = run["status"] == "ok" and any(s[2] == "dtor" for s in sections)
-    for pid, (si, key) in handed.items():
+    for pid, (si, key, rerequest) in handed.items():
         expect, decided_at = None, None
+        once = not rerequest
         for (line, tid, kind, k2, arg) in sections[si + 1:]:
             if kind == "get" and k2 == key:
-                expect = "broken"
+                # requested again while pending: outside the property's hypothesis ("requested once"); today's code
+                # abandons the promise (broken_promise).  Only "ready exactly once, never hanging" is required then.
+                expect, once = "broken", False
             elif kind == "set" and k2 == key:
                 expect = str(arg)
             elif kind == "ful":
@@ -164,8 +169,10 @@ def oracle_dobj(run):
                 return "future %d: %s" % (pid, "never became ready (destructor did not fulfil it)" if val == "hang" else "unexpected error")
             if expect is None:
                 return "future %d yielded %s although nothing satisfied it" % (pid, val)
+            if not once:
+                continue
             if val != expect:
-                return "future %d (key %s%s) yielded %s, the rule says %s" % (pid, key[0], key[1], val, expect)
+                return "future %d (key %s:%s) yielded %s, the rule says %s" % (pid, key[0], key[1], val, expect)
             if line < decided_at:
                 return "future %d was ready before the operation that decides its value" % pid
         elif complete:
@@ -173,7 +180,7 @@ def oracle_dobj(run):
     for pid in gots:
         if pid not in handed:
             return "future %d read but its getFuture has no critical section" % pid
-    return None
+    return later[0] if later else None
 
 
 def register(PROPS, COMPONENTS):
